@@ -360,3 +360,33 @@ Definition seq_step (cf : config) (s : state) (o : sop) : state * bool :=
 
 Definition count_dead (ts : list thread) : nat :=
   length (filter (fun t => match t with TDead => true | _ => false end) ts).
+
+(* ---------- stat.Metrics report delivery (metrics.go: log -> writeReport) ----------
+   Every Execute of every Metrics instance of the process ends in writeReport: writeLock.Lock()
+   (blocks while another report is being written or SetReportWriter runs), reportWriter.Write(report),
+   Unlock.  One thread per report. *)
+Inductive wpc :=
+| WWant (r : nat)      (* about to writeLock.Lock() with report r in hand *)
+| WHold (r : nat)      (* holds writeLock: reportWriter.Write(r); Unlock *)
+| WSet                 (* SetReportWriter: holds writeLock; Unlock *)
+| WWantSet             (* SetReportWriter: about to Lock *)
+| WDone.
+
+Record wstate := mkw { w_lock : option nat; w_thr : list wpc; w_out : list nat }.
+
+Definition wstep (s : wstate) (i : nat) : option wstate :=
+  match nth_error (w_thr s) i with
+  | Some (WWant r) =>
+      if free (w_lock s) then Some (mkw (Some i) (upd i (WHold r) (w_thr s)) (w_out s)) else None
+  | Some (WHold r) => Some (mkw None (upd i WDone (w_thr s)) (w_out s ++ [r]))
+  | Some WWantSet =>
+      if free (w_lock s) then Some (mkw (Some i) (upd i WSet (w_thr s)) (w_out s)) else None
+  | Some WSet => Some (mkw None (upd i WDone (w_thr s)) (w_out s))
+  | _ => None
+  end.
+
+Fixpoint wrun (sched : list nat) (s : wstate) : option wstate :=
+  match sched with
+  | [] => Some s
+  | i :: r => match wstep s i with Some s' => wrun r s' | None => None end
+  end.
